@@ -143,6 +143,10 @@ def install(ctx):
 
 
 def gen_case(rng, tier, ctx, i):
+    if rng.random() < 0.12:
+        from . import c04
+        ctx.count("count:bounded-sweep-formulas")
+        return {"recipe": recipes.strip(c04.next_sweep(i, ctx.seed))}
     o = common.varied_opts(rng, tier, p_huge=0.08)
     rec = common.model_case(rng, tier, o)
     if rec is None:
